@@ -305,6 +305,275 @@ class FlipComparisons:
     return {self.file: ast.unparse(tree)}
 
 
+class _TreeVariant:
+  """Base of the generated equivalent variants: parse the file, find the function, let `transform` edit candidate #k."""
+  expect = 'silent'
+  rule = None
+  lenient = True       # "cannot decide" is an acceptable answer; a VIOLATION is not
+  label = '?'
+
+  def __init__(self, file, qualname, k):
+    self.file, self.qualname, self.k = file, qualname, k
+    self.name = '%s #%d of %s' % (self.label, k, qualname)
+
+  @classmethod
+  def candidates(cls, fn):
+    raise NotImplementedError
+
+  def transform(self, cand):
+    raise NotImplementedError
+
+  def overlay(self, repo=None):
+    repo = repo or REPO
+    try:
+      tree = ast.parse(open(os.path.join(repo, self.file), encoding='utf-8').read())
+    except (OSError, SyntaxError):
+      return None
+    fn = _find_func(tree, self.qualname)
+    if fn is None:
+      return None
+    c = self.candidates(fn)
+    if self.k >= len(c):
+      return None
+    if self.transform(c[self.k]) is False:
+      return None
+    ast.fix_missing_locations(tree)
+    return {self.file: ast.unparse(tree)}
+
+
+def _blocks(fn):
+  for owner in ast.walk(fn):
+    for field in ('body', 'orelse', 'finalbody'):
+      blk = getattr(owner, field, None)
+      if isinstance(blk, list) and blk and isinstance(blk[0], ast.stmt):
+        yield owner, field, blk
+
+
+class InvertIf(_TreeVariant):
+  """`if c: A else: B`  ->  `if not c: B else: A`  (B not an elif chain)."""
+  label = 'if/else inverted'
+
+  @classmethod
+  def candidates(cls, fn):
+    return [n for n in ast.walk(fn) if isinstance(n, ast.If) and n.orelse and not (len(n.orelse) == 1 and isinstance(n.orelse[0], ast.If))]
+
+  def transform(self, n):
+    n.test = ast.UnaryOp(op=ast.Not(), operand=n.test)
+    n.body, n.orelse = n.orelse, n.body
+
+
+class EarlyContinue(_TreeVariant):
+  """a loop body ending in `if c: BODY` (no else)  ->  `if not c: continue` followed by BODY."""
+  label = 'trailing if turned into an early continue'
+
+  @classmethod
+  def candidates(cls, fn):
+    return [n for n in ast.walk(fn) if isinstance(n, (ast.For, ast.While)) and n.body and isinstance(n.body[-1], ast.If) and not n.body[-1].orelse]
+
+  def transform(self, loop):
+    last = loop.body[-1]
+    guard = ast.If(test=ast.UnaryOp(op=ast.Not(), operand=last.test), body=[ast.Continue()], orelse=[])
+    loop.body[-1:] = [guard] + list(last.body)
+
+
+class IfToTernary(_TreeVariant):
+  """`if c: x = a else: x = b`  ->  `x = a if c else b`  (same single name target in both branches)."""
+  label = 'if/else assignment turned into a conditional expression'
+
+  @classmethod
+  def candidates(cls, fn):
+    out = []
+    for owner, field, blk in _blocks(fn):
+      for i, n in enumerate(blk):
+        if isinstance(n, ast.If) and len(n.body) == 1 and len(n.orelse) == 1 and all(
+            isinstance(s, ast.Assign) and len(s.targets) == 1 and isinstance(s.targets[0], ast.Name) for s in (n.body[0], n.orelse[0])) and \
+           n.body[0].targets[0].id == n.orelse[0].targets[0].id:
+          out.append((blk, i))
+    return out
+
+  def transform(self, cand):
+    blk, i = cand
+    n = blk[i]
+    blk[i] = ast.Assign(targets=[ast.Name(id=n.body[0].targets[0].id, ctx=ast.Store())],
+                        value=ast.IfExp(test=n.test, body=n.body[0].value, orelse=n.orelse[0].value), lineno=n.lineno)
+
+
+class AugToPlain(_TreeVariant):
+  """`x op= e`  ->  `x = x op e`  (name and attribute targets)."""
+  label = 'augmented assignment written out'
+
+  @classmethod
+  def candidates(cls, fn):
+    out = []
+    for owner, field, blk in _blocks(fn):
+      for i, n in enumerate(blk):
+        if isinstance(n, ast.AugAssign) and isinstance(n.target, (ast.Name, ast.Attribute)) and not any(isinstance(x, ast.Call) for x in ast.walk(n.target)):
+          out.append((blk, i))
+    return out
+
+  def transform(self, cand):
+    import copy
+    blk, i = cand
+    n = blk[i]
+    load = copy.deepcopy(n.target)
+    for x in ast.walk(load):
+      if hasattr(x, 'ctx'):
+        x.ctx = ast.Load()
+    blk[i] = ast.Assign(targets=[n.target], value=ast.BinOp(left=load, op=n.op, right=n.value), lineno=n.lineno)
+
+
+class SplitChain(_TreeVariant):
+  """`a <= x <= b`  ->  `a <= x and x <= b`  (x a name or attribute chain: no side effects, evaluated twice)."""
+  label = 'chained comparison split'
+
+  @classmethod
+  def candidates(cls, fn):
+    return [n for n in ast.walk(fn) if isinstance(n, ast.Compare) and len(n.ops) == 2 and isinstance(n.comparators[0], (ast.Name, ast.Attribute)) and
+            not any(isinstance(x, ast.Call) for x in ast.walk(n.comparators[0]))]
+
+  def overlay(self, repo=None):
+    import copy
+    repo = repo or REPO
+    try:
+      tree = ast.parse(open(os.path.join(repo, self.file), encoding='utf-8').read())
+    except (OSError, SyntaxError):
+      return None
+    fn = _find_func(tree, self.qualname)
+    if fn is None:
+      return None
+    c = self.candidates(fn)
+    if self.k >= len(c):
+      return None
+    target = c[self.k]
+
+    class R(ast.NodeTransformer):
+      def visit_Compare(self, node):
+        if node is target:
+          mid = node.comparators[0]
+          return ast.BoolOp(op=ast.And(), values=[ast.Compare(left=node.left, ops=[node.ops[0]], comparators=[mid]),
+                                                  ast.Compare(left=copy.deepcopy(mid), ops=[node.ops[1]], comparators=[node.comparators[1]])])
+        return self.generic_visit(node)
+    R().visit(fn)
+    ast.fix_missing_locations(tree)
+    return {self.file: ast.unparse(tree)}
+
+
+class HoistAttr(_TreeVariant):
+  """an attribute `v.f` of a loop variable that is read at least twice in the loop body and never stored there is read once
+  into a local at the top of the body."""
+  label = 'repeated attribute read hoisted into a local'
+
+  @classmethod
+  def candidates(cls, fn):
+    out = []
+    for lp in ast.walk(fn):
+      if not (isinstance(lp, ast.For) and isinstance(lp.target, ast.Name)):
+        continue
+      v = lp.target.id
+      reads, stores = {}, set()
+      for b in lp.body:
+        for n in ast.walk(b):
+          if isinstance(n, ast.Attribute) and isinstance(n.value, ast.Name) and n.value.id == v:
+            if isinstance(n.ctx, ast.Load):
+              reads[n.attr] = reads.get(n.attr, 0) + 1
+            else:
+              stores.add(n.attr)
+          if isinstance(n, ast.Name) and n.id == v and isinstance(n.ctx, (ast.Store, ast.Del)):
+            stores.add('*')
+      # method calls on v may change its fields: only hoist when v is never the receiver of a call or passed on
+      escapes = any(isinstance(n, ast.Call) and any(isinstance(a, ast.Name) and a.id == v for a in list(n.args) + [k.value for k in n.keywords] + [getattr(n.func, 'value', None)])
+                    for b in lp.body for n in ast.walk(b))
+      if '*' in stores or escapes:
+        continue
+      for f, cnt in sorted(reads.items()):
+        if cnt >= 2 and f not in stores:
+          out.append((lp, v, f))
+    return out
+
+  def transform(self, cand):
+    lp, v, f = cand
+    local = '%s_%s_' % (v, f)
+
+    class R(ast.NodeTransformer):
+      def visit_Attribute(self, node):
+        if isinstance(node.value, ast.Name) and node.value.id == v and node.attr == f and isinstance(node.ctx, ast.Load):
+          return ast.copy_location(ast.Name(id=local, ctx=ast.Load()), node)
+        return self.generic_visit(node)
+    lp.body = [R().visit(b) for b in lp.body]
+    lp.body.insert(0, ast.Assign(targets=[ast.Name(id=local, ctx=ast.Store())], value=ast.Attribute(value=ast.Name(id=v, ctx=ast.Load()), attr=f, ctx=ast.Load()), lineno=lp.lineno))
+
+
+class InlineConstant(_TreeVariant):
+  """a module-level numeric constant (UPPER_CASE, bound once to a literal number in the same file) used in the function is
+  replaced by its literal value."""
+  label = 'module constant replaced by its value'
+
+  def overlay(self, repo=None):
+    repo = repo or REPO
+    try:
+      tree = ast.parse(open(os.path.join(repo, self.file), encoding='utf-8').read())
+    except (OSError, SyntaxError):
+      return None
+    consts = {}
+    for st in tree.body:
+      if isinstance(st, ast.Assign) and len(st.targets) == 1 and isinstance(st.targets[0], ast.Name) and st.targets[0].id.lstrip('_').isupper() and \
+         isinstance(st.value, ast.Constant) and isinstance(st.value.value, (int, float)) and not isinstance(st.value.value, bool):
+        consts[st.targets[0].id] = None if st.targets[0].id in consts else st.value.value
+    fn = _find_func(tree, self.qualname)
+    if fn is None:
+      return None
+    uses = [n for n in ast.walk(fn) if isinstance(n, ast.Name) and isinstance(n.ctx, ast.Load) and consts.get(n.id) is not None]
+    names = []
+    for n in uses:
+      if n.id not in names:
+        names.append(n.id)
+    if self.k >= len(names):
+      return None
+    target = names[self.k]
+
+    class R(ast.NodeTransformer):
+      def visit_Name(self, node):
+        if node.id == target and isinstance(node.ctx, ast.Load):
+          return ast.copy_location(ast.Constant(value=consts[target]), node)
+        return node
+    R().visit(fn)
+    ast.fix_missing_locations(tree)
+    return {self.file: ast.unparse(tree)}
+
+  @classmethod
+  def count(cls, tree, fn):
+    consts = set()
+    for st in tree.body:
+      if isinstance(st, ast.Assign) and len(st.targets) == 1 and isinstance(st.targets[0], ast.Name) and st.targets[0].id.lstrip('_').isupper() and \
+         isinstance(st.value, ast.Constant) and isinstance(st.value.value, (int, float)) and not isinstance(st.value.value, bool):
+        consts.add(st.targets[0].id)
+    return len(set(n.id for n in ast.walk(fn) if isinstance(n, ast.Name) and isinstance(n.ctx, ast.Load) and n.id in consts))
+
+
+def generated_variants(funcs, repo=None, per_function=2):
+  out = []
+  repo = repo or REPO
+  cache = {}
+  for (file, qualname) in funcs:
+    if file not in cache:
+      try:
+        cache[file] = ast.parse(open(os.path.join(repo, file), encoding='utf-8').read())
+      except (OSError, SyntaxError):
+        cache[file] = None
+    tree = cache[file]
+    fn = _find_func(tree, qualname) if tree is not None else None
+    if fn is None:
+      continue
+    for cls in (InvertIf, EarlyContinue, IfToTernary, AugToPlain, SplitChain, HoistAttr):
+      n = len(cls.candidates(fn))
+      for k in sorted(set([0, n - 1]))[:per_function]:
+        if 0 <= k < n:
+          out.append(cls(file, qualname, k))
+    for k in range(min(InlineConstant.count(tree, fn), per_function)):
+      out.append(InlineConstant(file, qualname, k))
+  return out
+
+
 def apply_unified_diff(text, diff_text, file):
   """Apply the hunks of `diff_text` that concern `file` to `text` (exact context match at the stated line,
   or at the unique position where the hunk's old lines occur).  None if a hunk does not apply."""
@@ -420,6 +689,7 @@ def all_variants(mod):
   muts.extend(FlipComparisons(f, q) for (f, q) in funcs)
   muts.extend(temp_variants(funcs))
   muts.extend(swap_variants(funcs))
+  muts.extend(generated_variants(funcs))
   muts.extend(kept_patches(getattr(mod, 'PROPERTY', None)))
   return muts
 
